@@ -384,7 +384,7 @@ def load_known():
 
 
 def run_property(prop: str, tier: str, check_fn: Callable, level: str, explanation: str,
-                 assumptions: List[str], extra_cmd: str = "") -> int:
+                 assumptions: List[str], extra_cmd: str = "", post: Callable = None) -> int:
     t0 = time.time()
     seed = int(os.environ.get("VERIF_SEED", "0") or 0)
     scratch = os.environ.get("VERIF_NOEVID")
@@ -525,6 +525,18 @@ def run_property(prop: str, tier: str, check_fn: Callable, level: str, explanati
         "wall_s": round(time.time() - t0, 3),
         "violations": len(viol),
     }
+    if post is not None and err is None:
+        try:
+            extra, rc2, more = post()
+            evid["coverage"].update(extra)
+            lines += more
+            if rc2 and status == 0:
+                status = rc2
+        except Exception as e:  # the self-test harness must never look like a violation
+            lines.append(f"ANALYSIS-ERROR property={prop} self-test harness raised {type(e).__name__}: {e}")
+            if status == 0:
+                status = 2
+        evid["wall_s"] = round(time.time() - t0, 3)
     if status == 2:
         evid["coverage"]["analysis_error"] = [l for l in lines if l.startswith("ANALYSIS-ERROR")]
     json.dump(evid, open(evid_path, "w"), indent=1, default=str)
